@@ -399,6 +399,14 @@ pub fn cmd_sched(a: &Args) {
 
 /// A worker thread that runs jobs under a deadline.  When a job overruns, the worker is abandoned
 /// (it may be stuck forever) and a fresh one is started for the next job.
+/// Calls that did not return within their deadline, in this process.  Each leaves a spinning thread behind: once
+/// a few have been seen (and reported by their callers), the loops over work items stop taking new items.
+pub static HUNG_CALLS: std::sync::atomic::AtomicUsize = std::sync::atomic::AtomicUsize::new(0);
+
+pub fn too_many_hangs() -> bool {
+	HUNG_CALLS.load(std::sync::atomic::Ordering::SeqCst) >= 3
+}
+
 pub struct Watchdog {
 	tx: Option<mpsc::Sender<Box<dyn FnOnce() + Send>>>,
 }
@@ -434,6 +442,7 @@ impl Watchdog {
 			Ok(v) => Some(v),
 			Err(_) => {
 				self.tx = None; // abandon the stuck worker
+				HUNG_CALLS.fetch_add(1, std::sync::atomic::Ordering::SeqCst);
 				None
 			}
 		}
